@@ -367,7 +367,7 @@ func genCase0(t *rapid.T) Case {
 			Layout: int(rapid.SampledFrom(layouts).Draw(t, "layout")),
 			Via:    rapid.SampledFrom([]string{"flat", "flat", "multipoint", "linestring", "polygon", "polygon-rings", "multilinestring", "multipolygon"}).Draw(t, "via"),
 			PtsF:   pts,
-			Extra:  rapid.SampledFrom([]string{"", "", "const:0", "const:1", "mix"}).Draw(t, "extra"),
+			Extra:  rapid.SampledFrom([]string{"", "", "const:0", "const:1", "mix", "nan"}).Draw(t, "extra"),
 		}
 	}
 	shape, pts := genPts(t)
@@ -376,7 +376,7 @@ func genCase0(t *rapid.T) Case {
 		Layout:  int(rapid.SampledFrom(layouts).Draw(t, "layout")),
 		Via:     rapid.SampledFrom([]string{"flat", "flat", "multipoint", "linestring", "polygon", "polygon-rings", "multilinestring", "multipolygon"}).Draw(t, "via"),
 		Pts:     pts,
-		Extra:   rapid.SampledFrom([]string{"", "", "const:0", "const:1", "const:3", "const:5", "x", "y", "mix"}).Draw(t, "extra"),
+		Extra:   rapid.SampledFrom([]string{"", "", "const:0", "const:1", "const:3", "const:5", "x", "y", "mix", "nan", "nan"}).Draw(t, "extra"),
 		NegZero: rapid.IntRange(0, 3).Draw(t, "negzero") == 0,
 	}
 }
@@ -468,6 +468,17 @@ func flatOf(c Case) []float64 {
 				flat = append(flat, float64(p[(d+1)%2]))
 			case c.Extra == "mix":
 				flat = append(flat, float64((i*7+d*3)%9))
+			case c.Extra == "nan":
+				// a Z or M is often "no value": NaN for a third of the points, an infinity
+				// for another third (the hull is a matter of x and y)
+				switch (i + d) % 3 {
+				case 0:
+					flat = append(flat, math.NaN())
+				case 1:
+					flat = append(flat, math.Inf(1-2*(i%2)))
+				default:
+					flat = append(flat, float64(1000*d+i)+0.5)
+				}
 			default:
 				// distinct extra ordinates per input point: provenance is observable
 				flat = append(flat, float64(1000*d+i)+0.5)
